@@ -1,0 +1,42 @@
+//go:build verif
+
+package vgirpc
+
+// Thin exported wrappers over the unexported OAuth PKCE cookie codec and URL
+// validators for the /verif conformance harness. Each wrapper calls the real
+// function and nothing else.
+
+// VerifSessionMaxAge is the session-cookie lifetime (seconds) the callback
+// handler passes to unpackOAuthCookie.
+const VerifSessionMaxAge = sessionMaxAge
+
+// VerifSessionCookieName is the name of the PKCE session cookie.
+const VerifSessionCookieName = sessionCookieName
+
+// VerifAuthCookieName is the name of the bearer cookie set after login.
+const VerifAuthCookieName = authCookieName
+
+// VerifPackOAuthCookie runs packOAuthCookie.
+func VerifPackOAuthCookie(verifier, state, originalURL, returnTo string, sessionKey []byte, createdAt int64) string {
+	return packOAuthCookie(verifier, state, originalURL, returnTo, sessionKey, createdAt)
+}
+
+// VerifUnpackOAuthCookie runs unpackOAuthCookie.
+func VerifUnpackOAuthCookie(cookieValue string, sessionKey []byte, maxAge int) (verifier, state, originalURL, returnTo string, err error) {
+	return unpackOAuthCookie(cookieValue, sessionKey, maxAge)
+}
+
+// VerifDeriveSessionKey runs deriveSessionKey.
+func VerifDeriveSessionKey(signingKey []byte) []byte {
+	return deriveSessionKey(signingKey)
+}
+
+// VerifValidateReturnTo runs validateReturnTo.
+func VerifValidateReturnTo(u string, allowedOrigins map[string]bool) string {
+	return validateReturnTo(u, allowedOrigins)
+}
+
+// VerifValidateOriginalURL runs validateOriginalURL.
+func VerifValidateOriginalURL(u, prefix string) string {
+	return validateOriginalURL(u, prefix)
+}
